@@ -33,7 +33,29 @@ hdr = ('## 9. Seeded changes and which check catches which\n\n'
        'oracle = the property-level oracle found a failing input on the implementation. "repo head" is the /repo commit the\n'
        'patch was confirmed against (later `fix:` commits may have moved the lines; such patches are marked in §9.1).\n\n'
        '| seed | repo head | change | needs to manifest | outcome per check |\n|---|---|---|---|---|\n')
-body = hdr + '\n'.join(rows) + '\n'
+# stage statistics over the latest recorded run of each seed against the check of its own property
+stat = {'seeds': 0, 'caught': 0, 'noinput': 0, 'missed': 0, 'oracle': 0, 'correspondence': 0, 'translator': 0, 'proof': 0}
+for d in sorted(glob.glob('/verif/seeded/C*-*')):
+    name = d.split('/')[-1]; own = name.split('-')[0]
+    try:
+        res = json.load(open(d + '/result.json'))
+    except Exception:
+        continue
+    v = None
+    for tier in res.values():
+        if own in tier:
+            v = tier[own]
+    if v is None:
+        continue
+    stat['seeds'] += 1
+    stat['caught' if v['found_input'] else ('noinput' if v['rc'] else 'missed')] += 1
+    ks = set(s.split(':')[0].replace('broken ', '').replace('violation', 'oracle') for s in v['stages'])
+    for k in ('oracle', 'correspondence', 'translator', 'proof'):
+        stat[k] += k in ks
+summary = ('\nOwn-property outcome over %(seeds)d seeds (latest recorded run): %(caught)d caught with a concrete failing input, '
+           '%(noinput)d tie/proof broken without input, %(missed)d missed; stages that fired: oracle %(oracle)d, correspondence '
+           '%(correspondence)d, translator %(translator)d, Coq proof %(proof)d.\n' % stat)
+body = hdr + '\n'.join(rows) + '\n' + summary
 extra = open('/verif/seeded/NOTES.md').read() if __import__('os').path.exists('/verif/seeded/NOTES.md') else ''
 s = open('/verif/DESIGN.md').read()
 i = s.find('## 9. Seeded changes')
